@@ -2,6 +2,7 @@ import DoltVerif.Lemmas.Query
 import DoltVerif.Lemmas.QueryMerge
 import DoltVerif.Lemmas.QueryKey
 import DoltVerif.Model.QueryLeft
+import DoltVerif.Lemmas.QueryLeft
 /-!
 C26 — Dolt returns the same query results as the reference engine (partial by design).
 
@@ -362,13 +363,28 @@ def NoUnmatchedDuplicate (lk rk : Tuple → Cell) (ok : Tuple → Tuple → Bool
     (∃ r ∈ right, ok a r = true) ∨ (∀ r ∈ right, ccmp (lk a) (rk r) ≠ 0)
 
 /-- **not proved** (kept as the statement of the partial claim): under `NoUnmatchedDuplicate` the LEFT OUTER
-merge join is a permutation of the left outer nested-loop join.  (The resumable machine needs an
-invariant proof over `Next` calls that did not fit into this round; the statement is checked on the
-instances below, and the machine is compared with dolt — including the defective answers — by the harness.) -/
+merge join is a permutation of the left outer nested-loop join.  (Proved so far: `left_merge_join_unique_eq_spec` — machine = functional specification for pairwise
+different left keys; still open: `leftSpec` is a permutation of the left outer nested-loop join for sorted inputs
+(the analogue of `merge_join_eq_nlj`), and left-key duplicates whose first row has an accepted match.) -/
 def left_merge_join_partial_full : Prop :=
   ∀ (lk rk : Tuple → Cell) (extra : Tuple → Tuple → Bool) (left right : List Tuple),
     SortedBy lk left → SortedBy rk right → NoUnmatchedDuplicate lk rk (okWith lk rk extra) left right →
     (leftMergeJoin lk rk (okWith lk rk extra) left right).Perm (leftNlj (okWith lk rk extra) left right)
+
+/-- **`left_merge_join_unique_eq_spec`** (invariant over `Next` calls — compare-ready, match and exhaust
+states; `Lemmas/QueryLeft.lean`): when the left rows have pairwise different join keys, the rows the
+LEFT OUTER state machine returns over successive `Next` calls until EOF are exactly those of the
+functional specification `leftSpec` (per left row: skip smaller right rows; equal key ⇒ the accepted
+candidates of the look-ahead buffer followed by the current right row, or one NULL-extended row; smaller
+key or right side exhausted ⇒ one NULL-extended row) — for every number `n` of calls that suffices,
+every join filter `ok`, NULL keys and right-side duplicates included.  No sortedness is needed for this step. -/
+theorem left_merge_join_unique_eq_spec (lk rk : Tuple → Cell) (ok : Tuple → Tuple → Bool) (left right : List Tuple)
+    (hd : DistinctKeys lk left) (g n : Nat) (hg : left.length + right.length + 1 ≤ g)
+    (hn : (leftSpec lk rk ok g left right).length < n) :
+    lrun lk rk ok n (LSt.init left right) = leftSpec lk rk ok g left right :=
+  left_machine_eq_spec lk rk ok left right hd g n hg hn
+
+example : DistinctKeys headCell [[some 1, some 1], [some 2, some 2], [some 5, some 4]] := by unfold DistinctKeys; decide
 
 /-- the witness violates the hypothesis (it must) -/
 example : ¬ NoUnmatchedDuplicate headCell headCell (okWith headCell headCell witExtra) witL witR := by
